@@ -363,7 +363,7 @@ Section ResolverExact.
     - (* scalar *)
       destruct f as [|f1]; [rewrite mt_zero in H; discriminate|]. rewrite mt_var, Ha in H.
       destruct f1 as [|f2]; [rewrite mt_zero in H; discriminate|].
-      change (target_str ResOut) with RESOUT in H. rewrite mt_ns3 in H.
+      change (target_str ResOut) with RESOUT in H. rewrite mt_ns3 in H. unfold tname in H; cbn [typedef_name] in H.
       destruct (alias_of ms (iname name)) as [body|] eqn:Hal; [|discriminate].
       eapply (alias_exact_sound o doc ResOut ms Hwf Hms E (fun _ => eq_refl)); [exact Happ|exact Hal|exact H].
     - eapply object_alias_sound; eassumption.
@@ -381,7 +381,7 @@ Section ResolverExact.
     - (* enum *)
       destruct f as [|f1]; [rewrite mt_zero in H; discriminate|]. rewrite mt_var, Ha in H.
       destruct f1 as [|f2]; [rewrite mt_zero in H; discriminate|].
-      change (target_str ResOut) with RESOUT in H. rewrite mt_ns3 in H.
+      change (target_str ResOut) with RESOUT in H. rewrite mt_ns3 in H. unfold tname in H; cbn [typedef_name] in H.
       destruct (alias_of ms (iname name)) as [body|] eqn:Hal; [|discriminate].
       eapply (alias_exact_sound o doc ResOut ms Hwf Hms E (fun _ => eq_refl)); [exact Happ|exact Hal|exact H].
   Qed.
